@@ -1,8 +1,13 @@
 (* C14 - template errors point at the real fault.  Statements only.
-   Proved so far: the rendering half (caret line of exactly `position` spaces and `length` carets
-   under the reported template) over the regenerated format strings.  The "fault really present"
-   half is decided by the oracle err_ok_b (Check/Checker.v) on every error the crate produces
-   (exhaustive over the syntax alphabet to length 5/6 plus random templates); no theorem yet. *)
+   Proved: the rendering half (caret line of exactly `position` spaces and `length` carets under the reported
+   template) over the regenerated format strings; and, for every error the parser model returns on any input:
+   the reported text is the input itself (group errors) or one of its documented expansions (all others), every
+   position and length lies inside it, and the indicated bytes are "()" / a parenthesis / "{}" / a brace / the
+   brace-delimited parameter(s) concerned.  Not proved (decided by the oracle err_ok_b of Check/Checker.v on
+   every error the crate produces - exhaustive over the syntax alphabet to length 5/6 plus random templates):
+   the finer classification inside the braces (that the name really is empty / contains an invalid character /
+   is the one duplicated), that an unbalanced-parenthesis error points at an UNMATCHED one and an unbalanced-brace
+   error at the FIRST brace fault. *)
 From WF Require Import Base.Bytes Spec.Route Model.Parser Model.Render Model.Display Proofs.RenderP.
 
 Theorem C14_render_caret_line :
@@ -23,3 +28,29 @@ Theorem C14_render_caret_line :
   end.
 Proof. exact render_terr_caret_line. Qed.
 Print Assumptions C14_render_caret_line.
+
+(* ---- the fault is present ---- *)
+From WF Require Import Spec.Grammar Proofs.ErrP.
+Print paren_err_ok.
+Print tmpl_err_ok.
+Print braced.
+
+Theorem C14_error_names_a_present_fault :
+  forall (t : bytes) (e : terr),
+    parse t = Err e ->
+    (e = EEmpty /\ t = [])
+    \/ paren_err_ok t e
+    \/ exists es raw, expansions_spec t = Some es /\ In raw es /\ tmpl_err_ok raw e.
+Proof. exact parse_err_ok. Qed.
+Print Assumptions C14_error_names_a_present_fault.
+
+Theorem C14_group_errors_point_at_parentheses :
+  forall (t : bytes) (e : terr),
+    expand (S (length t)) t 0 (length t) = Err e -> paren_err_ok t e.
+Proof. exact expand_err_ok. Qed.
+Print Assumptions C14_group_errors_point_at_parentheses.
+
+Theorem C14_expansion_errors_point_at_braces :
+  forall (raw : bytes) (e : terr), parse_template raw = Err e -> tmpl_err_ok raw e.
+Proof. exact parse_template_err. Qed.
+Print Assumptions C14_expansion_errors_point_at_braces.
